@@ -228,9 +228,13 @@ func (b *Built) Run(input []byte, o *rtapi.RunOpts, script map[int]*rtapi.Block)
 		}
 	}
 	ctx := &rtapi.Ctx{Script: script}
-	// every run starts with empty state pools: an observation is a function of
-	// the case alone (replayable), never of the cases run before it
+	// every run starts cold - empty state pools, package-level variables of the
+	// runtime re-initialised: an observation is a function of the case alone
+	// (replayable, and comparable with a fresh process of the compiled parser),
+	// never of the cases or the other grammars run before it in this process.
+	// Histories of several calls are C18's subject.
 	vsync.Reset()
+	b.RT.ResetGlobals()
 	obs := b.RT.Run(input, o, ctx)
 	if len(vsync.Violations) > 0 {
 		obs.Pool = vsync.Violations
